@@ -44,7 +44,11 @@ MANIFEST = {
         text="Exhaustive TLC exploration of specs/BlockQuery (GetBlock as HeaderLookup / CacheLookup / Submit / one "
              "Resp step per response / Verdict+cache put / Return, up to 3 consecutive calls) over response streams of "
              "unbounded length from up to 4 peers over {requested block intact, other block, sibling header (the requested block with exactly one header field - version, prev block, merkle root, timestamp, bits or nonce - changed and PoW still valid), tx mutated, tx added, tx "
-             "removed, witness stripped, witness commitment forged, duplicate of the previous message, non-block}. "
+             "removed, witness stripped, witness commitment forged, duplicate of the previous message, non-block}, "
+             "for two target classes: an ordinary stored header, and (second configuration) a stored header whose timestamp "
+             "is more than two hours ahead of the node's clock (the code's CheckBlockSanity then fails on the header before "
+             "it looks at the transactions: every response under the requested header, the intact block included, is "
+             "rejected and its sender banned - modelled as it is, the intact case is not judged). "
              "EVERY transition is replayed against the real ChainService.GetBlock and its response closure (real block "
              "header store, REAL blocks with witness commitments and P2WPKH/P2PKH transactions, mutations such as the "
              "CVE-2012-2459 duplicate-tail block that keeps the merkle root, real lru cache, real banman store behind "
@@ -56,7 +60,7 @@ MANIFEST = {
              "query.WorkManager with scripted mock peers that serve invalid / unrelated / intact blocks and disconnect "
              "or time out (the retry with other peers happens for real); the recorded traces must be behaviours of "
              "the specification and satisfy the same Props.",
-        note="Bounded: <=3 known blocks, <=4 peers, <=3 calls. Witness encoding only (the default); retry with other "
+        note="Bounded: <=3 known blocks, <=4 peers, <=3 calls; the future-dated header is the top block of the store. Witness encoding only (the default); retry with other "
              "peers itself is the dispatcher's job (C12) - here the Progress values that trigger it are checked. Trusts "
              "TLC and the harness' own merkle / witness-commitment code (cross-checked against btcd on the intact blocks).",
         design="4 C06", technique="TLA+ spec + TLC exhaustive + spec-to-code replay of every transition + free-running traces "
@@ -98,11 +102,17 @@ CONFIGS = {
         ("single", fq(5, [3, 4, 5], 1, ALLM, [0, 1, 2, 3, 5], range(0, 7), BadAll=True, PH=[1, 3, 5]), (3000, 40)),
         ("two-callers", fq(3, [2, 3], 2, ALLM, [0], range(1, 5), ["none", "rev"], [0], range(1, 4), P=[True], PH=[2]), (2000, 40)),
     ]),
+    # Fut: known blocks whose STORED header is dated more than 2 h ahead of the node's clock (the top block of
+    # the store only: its children would have to build on it).  "future": the same model with such a target
+    # next to an ordinary one; an optional 4th element gives the scenario free-running runs of its own
+    # (scenarios, silent share, chatter share, forced chatter).
     ("C06", "quick"): ("BlockQuery", SPEC_B, "TestVerifBlockQueryReplay", [
-        ("calls", dict(NB=2, NP=3, MaxCalls=2, MaxResp=0), None),
+        ("calls", dict(NB=2, NP=3, MaxCalls=2, MaxResp=0, Fut="{}"), None),
+        ("future", dict(NB=2, NP=2, MaxCalls=2, MaxResp=0, Fut="{2}"), None, (16, 0.0, 0.0, 0)),
     ]),
     ("C06", "thorough"): ("BlockQuery", SPEC_B, "TestVerifBlockQueryReplay", [
-        ("calls", dict(NB=3, NP=4, MaxCalls=3, MaxResp=0), (5000, 40)),
+        ("calls", dict(NB=3, NP=4, MaxCalls=3, MaxResp=0, Fut="{}"), (5000, 40)),
+        ("future", dict(NB=3, NP=3, MaxCalls=3, MaxResp=0, Fut="{3}"), (2000, 40), (200, 0.04, 0.03, 0)),
     ]),
 }
 
@@ -245,10 +255,12 @@ def free_scenarios(module, consts, n, rng, silent_share, chatter_share=0.0, forc
         force = sn < forced_chatter
         if module == "BlockQuery":
             nb, np_, mc = consts["NB"], consts["NP"], consts["MaxCalls"]
-            init = {"ret": -9, "cache": [0] * nb, "cx": 0, "banned": [0] * np_}
+            futs = ev(consts.get("Fut", "{}"))
+            init = {"ret": -9, "cache": [0] * nb, "cx": 0, "fut": [1 if b in futs else 0 for b in range(1, nb + 1)],
+                    "banned": [0] * np_}
             calls = []
             for _c in range(rng.randint(1, mc)):
-                tgt = rng.choice(list(range(1, nb + 1)) * 4 + [nb + 1])
+                tgt = rng.choice(list(range(1, nb + 1)) * 4 + [nb + 1] + list(futs) * 6)
                 if force and _c == 0:
                     tgt = rng.randint(1, nb)
                 peers, first = [], True
@@ -466,7 +478,7 @@ def run(prop_id, tier, seed, replay=None):
             scen = {}
             with open(fpf, "w") as f:
                 for i, d in enumerate(free_scenarios(module, consts, n, rng, silent, chatter, forced)):
-                    d["id"] = 10 ** 7 + i
+                    d["id"] = 10 ** 7 + len(state.get("free_obs", [])) + i
                     d["steps"] = []
                     scen[d["id"]] = d["free"]
                     f.write(json.dumps(d) + "\n")
@@ -500,15 +512,28 @@ def run(prop_id, tier, seed, replay=None):
                     r["scenario"] = scen.get(t["id"])
                     r["labels"] = [label(x["act"]) for x in t["steps"][:r["step"]]]
                     rejected.append(r)
-            state["free"] = {"traces": len(traces), "steps": sum(len(t["steps"]) for t in traces),
-                             "hung_calls": sum(1 for t in traces for st in t["steps"] if st["act"].get("res") == "hang"),
-                             "skipped": sum(1 for t in traces if t.get("skipped")),
-                             "not_a_behaviour_of_the_spec": len(rejected), "samples": rejected[:3],
-                             "wall_s": round(time.time() - t1, 1),
-                             "example": [label(x["act"]) for x in traces[0]["steps"]] if traces else []}
+            fr = {"traces": len(traces), "steps": sum(len(t["steps"]) for t in traces),
+                  "hung_calls": sum(1 for t in traces for st in t["steps"] if st["act"].get("res") == "hang"),
+                  "skipped": sum(1 for t in traces if t.get("skipped")),
+                  "not_a_behaviour_of_the_spec": len(rejected), "samples": rejected[:3],
+                  "wall_s": round(time.time() - t1, 1),
+                  "example": [label(x["act"]) for x in traces[0]["steps"]] if traces else []}
+            prev = state.get("free")
+            if prev:        # a second scenario with free-running runs of its own: sum up
+                for k in ("traces", "steps", "hung_calls", "skipped", "not_a_behaviour_of_the_spec"):
+                    fr[k] += prev[k]
+                fr["samples"] = (prev["samples"] + fr["samples"])[:3]
+                fr["wall_s"] = round(fr["wall_s"] + prev["wall_s"], 1)
+                fr["example"] = prev["example"]
+                def fut_resp(x):
+                    f, t = x["obs"].get("fut", []), x["act"].get("tgt", 0)
+                    return x["act"]["op"] == "Resp" and 1 <= t <= len(f) and f[t - 1] == 1
+                fr["example_future_dated_target"] = next(
+                    ([label(x["act"]) for x in t["steps"]] for t in traces if any(fut_resp(x) for x in t["steps"])), [])
+            state["free"] = fr
             state["drift"][1] += len(rejected)
             state["drift"][2] = (state["drift"][2] + [dict(r, what="free-running trace: " + r["what"]) for r in rejected])[:5]
-            state["free_obs"] = [_shrink(t) for t in traces]
+            state["free_obs"] = state.get("free_obs", []) + [_shrink(t) for t in traces]
 
         if replay:
             pf = os.path.join(sc, "paths.ndjson")
@@ -524,7 +549,7 @@ def run(prop_id, tier, seed, replay=None):
             replay_chunk(pf)
             tlc_m, g_m = family._NoTLC(), None
         else:
-            for name, consts, walks in scenarios:
+            for name, consts, walks, *own_free in scenarios:
                 t1 = time.time()
                 tlc = core.run_tlc([spec], module, consts, workers=1, invariants=INVARIANTS[module],
                                    workdir=os.path.join(sc, "tlc-" + name), timeout=3000)
@@ -542,6 +567,8 @@ def run(prop_id, tier, seed, replay=None):
                 merged.add(tlc, g)
                 if free and name == scenarios[0][0]:
                     free_run(g, consts, free)
+                elif free and own_free:
+                    free_run(g, consts, own_free[0])
                 info[name] = {"constants": consts, "states": tlc.distinct, "edges": len(g.edges),
                               "paths": len(paths), "tlc_wall_s": round(tlc.wall, 1),
                               "model_violating_edges": sum(1 for e in g.edges if e[4])}
